@@ -89,6 +89,8 @@ pub struct Cfg {
     pub compression: Option<(String, Option<i64>)>,
     pub source_date: Option<u32>,
     pub signer: Option<String>,
+    /// call .source_date() after the files have been added (builder calls commute)
+    pub late_source_date: bool,
 }
 
 pub const SCRIPT_KINDS: [&str; 9] = ["pre_install", "post_install", "pre_uninstall", "post_uninstall", "pre_trans", "post_trans", "pre_untrans", "post_untrans", "verify"];
@@ -202,7 +204,7 @@ pub fn builder(cfg: &Cfg, wd: &Workdir) -> Result<PackageBuilder, rpm::Error> {
     if let Some(x) = &cfg.cookie { b = b.cookie(x); }
     if let Some(x) = &cfg.build_host { b = b.build_host(x); }
     if let Some(c) = compression_of(&cfg.compression) { b = b.compression(c); }
-    if let Some(sd) = cfg.source_date { b = b.source_date(sd); }
+    if let (Some(sd), false) = (cfg.source_date, cfg.late_source_date) { b = b.source_date(sd); }
     for (k, s) in &cfg.scripts {
         let sc = scriptlet(s);
         b = match *k {
@@ -237,6 +239,7 @@ pub fn builder(cfg: &Cfg, wd: &Workdir) -> Result<PackageBuilder, rpm::Error> {
         let src = wd.source(i, f);
         b = b.with_file(&src, file_options(f)?)?;
     }
+    if let (Some(sd), true) = (cfg.source_date, cfg.late_source_date) { b = b.source_date(sd); }
     Ok(b)
 }
 
@@ -363,6 +366,12 @@ pub fn rand_cfg(rng: &mut Rng, max_files: u64, max_len: usize) -> Cfg {
             version: rng.pick(&["", "1.0", "2:3.4-5", "~"]).to_string(),
         }));
     }
+    if rng.chance(1, 3) {
+        let k = rng.below(8) as usize;
+        let name = format!("range{}", rng.below(3));
+        cfg.deps.push((k, DepCfg { name: name.clone(), flags: 4 | 8, version: "1.2".into() }));
+        cfg.deps.push((k, DepCfg { name, flags: 2, version: "2.0".into() }));
+    }
     let ncl = rng.below(4);
     for i in 0..ncl {
         cfg.changelog.push((format!("Dev {} <d@e.f> - 0.{}", rand_str(rng), i), rand_str(rng), *rng.pick(&[0u32, 840_000_000, 1_681_411_811, u32::MAX])));
@@ -382,6 +391,7 @@ pub fn rand_cfg(rng: &mut Rng, max_files: u64, max_len: usize) -> Cfg {
         _ => Some(("gzip".into(), Some(1))),
     };
     cfg.source_date = if rng.chance(2, 3) { Some(1_600_000_000) } else { None };
+    cfg.late_source_date = rng.chance(1, 2);
     cfg
 }
 
